@@ -32,7 +32,7 @@ ASSUMPTIONS = [
 ]
 FLOORS = {'evaluate_outcomes': 2000, 'pairs_seen': 144,
           'reassigned_evaluations': 300, 'two_sheet_evaluations': 300,
-          'decimal_residue_cases': 100,
+          'decimal_residue_cases': 100, 'postfix_percent_cases': 30,
           'rendering_groups': 500}
 ANCHOR_FUNCS = {
     'xlcalculator/parser.py': ['FormulaParser.shunting_yard',
@@ -387,6 +387,13 @@ class Runner:
         return None
 
 
+def self_attr(runner, wb, ast, got):
+    try:
+        return runner.attribute(wb, ast, got)
+    except Exception:  # noqa
+        return None
+
+
 def _has_ref(ast):
     if ast[0] == 'ref':
         return True
@@ -510,6 +517,54 @@ def run(ctx):
                 ast = ('bin', op, left, right)
                 R.add(ast, asg, 'decimal-residue', [('minimal', False)])
             ctx.event('decimal_residue_cases', 6)
+
+    # ---- the percent sign after a reference or a parenthesis (x% is x/100 and
+    # binds tighter than every binary operator, ^ included) -------------------
+    if sh in (2, 3) or thorough:
+        HUNDRED = ('lit', 100, '100')
+
+        def pct(x):
+            return ('par', ('bin', '/', x, HUNDRED))
+        A, Bc, Cc = cellref(0), cellref(1), cellref(2)
+        TWO = ('lit', 2, '2')
+        forms = [
+            ('=A1%', pct(A)), ('=A1%*B1', ('bin', '*', pct(A), Bc)),
+            ('=-A1%', ('neg', pct(A))),
+            ('=A1%+B1%', ('bin', '+', pct(A), pct(Bc))),
+            ('=(A1+B1)%', pct(('par', ('bin', '+', A, Bc)))),
+            ('=2^(A1)%', ('bin', '^', TWO, pct(('par', A)))),
+            ('=2^A1%', ('bin', '^', TWO, pct(A))),
+            ('=A1%^2', ('bin', '^', pct(A), TWO)),
+            ('=A1%%', pct(pct(A))), ('=50%%', pct(('lit', 0.5, '50%'))),
+            ('=C1-A1%*B1', ('bin', '-', Cc, ('bin', '*', pct(A), Bc))),
+            ('=A1%&B1', ('bin', '&', pct(A), Bc)),
+            ('=A1%=B1%', ('bin', '=', pct(A), pct(Bc))),
+            ('=1+(A1*2)%', ('bin', '+', ('lit', 1, '1'),
+                            pct(('par', ('bin', '*', A, TWO))))),
+        ]
+        for asg in [(50, 2, 3, 1, 1, 1), (200, -4, 0.5, 1, 1, 1),
+                    (-25, 8, 10, 1, 1, 1)]:
+            wb = ref.Workbook({('Sheet1', i + 1, 1): v
+                               for i, v in enumerate(asg)})
+            outs = subject.eval_batch([t for t, _ in forms],
+                                      dict(zip(CELLS, asg)))
+            for (text, ast), got in zip(forms, outs):
+                expect = ref_value(wb, ast)
+                if expect[0] == 'undecided':
+                    continue
+                ctx.event('evaluate_outcomes')
+                ctx.event('postfix_percent_cases')
+                ctx.case(('postfix-percent', text, asg))
+                if not (got[0] == 'value' and values_equal(got[1],
+                                                           expect[1])):
+                    ctx.fail(f'{text} with {dict(zip(CELLS, asg))}: observed '
+                             f'{got}, reference {expect[1]} (x% is x/100, '
+                             f'binding tighter than any binary operator)',
+                             {'formula': text, 'cells': dict(zip(CELLS, asg)),
+                              'observed': got, 'reference': expect[1]},
+                             kf=self_attr(R, wb, ast, got),
+                             monitor='value-vs-reference',
+                             group='postfix-percent:' + text[:8])
 
     # ---- sampled trees ------------------------------------------------------
     def leaves(r):
